@@ -17,7 +17,7 @@
 (*   health, members (set of [name,addr,port,meta] listed afterwards),     *)
 (*   postAllowed, cfg=[reclaim,gossipDead,allowOn,...]                     *)
 (***************************************************************************)
-EXTENDS MLCore
+EXTENDS MLCore, MLOrderRef
 
 Range(s) == {s[i] : i \in DOMAIN s}
 
@@ -164,6 +164,29 @@ C18_Source(e)  == (e.ev = "UdpAlive" /\ e.cfg.allowOn /\ ~e.srcAllowed) => e.nod
 
 -----------------------------------------------------------------------------
 (* all single-step membership predicates, by name - used by models and trace specs *)
+-----------------------------------------------------------------------------
+(* The order core (MLOrderRef): Apalache proves C01 / C02 on these operators for *)
+(* unbounded incarnations (module MLOrder); here a step - a transition of a      *)
+(* bounded model or a recorded step of the real code - is compared with them.    *)
+OrderView(e) == [st |-> e.pre.state, inc |-> e.pre.inc, selfInc |-> e.incPre, timerOn |-> e.tpre.on,
+                 isSelf |-> AboutSelf(e), leave |-> e.leave]
+OrderClaim(e) ==
+  LET addrDiff == ~IsAbsent(e.pre) /\ AddrDiffers(e)
+      updates  == /\ e.op = "alive" /\ addrDiff
+                  /\ \/ e.pre.state = "left"
+                     \/ (e.pre.state = "dead" /\ e.cfg.reclaim > 0 /\ Since(e.t, e.pre.changed) > e.cfg.reclaim)
+      drop     == /\ e.op = "alive"
+                  /\ \/ e.filtered
+                     \/ ((IsAbsent(e.pre) \/ addrDiff) /\ ~e.allowed)
+                     \/ (addrDiff /\ ~updates)
+  IN [op |-> e.op, kind |-> e.claim.kind, inc |-> e.claim.inc, selfSigned |-> (e.claim.from = e.claim.node),
+      gate |-> IF drop THEN "drop" ELSE "pass", updates |-> updates,
+      same |-> (e.claim.meta = e.pre.meta /\ e.claim.vsn = e.pre.vsn), boot |-> e.boot]
+OrderCore(e) ==
+  IsNodeOp(e) =>
+    LET r == OStepF(OrderView(e), OrderClaim(e)) IN
+    /\ e.post.state = r.st /\ e.post.inc = r.inc /\ e.incPost = r.selfInc /\ e.tpost.on = r.timerOn
+
 StepProps == <<"C01_StaleNoEffect", "C01_Forward", "C02_Refute", "C02_MergeReaches", "C02_SelfAlive", "C07_Serial",
                "C08_Left", "C08_LeftAt", "C08_NoResurrect", "C08_LeaverStays", "C08_NoHijack", "C08_Reuse",
                "C09_Hearsay", "C18_Records", "C18_Events", "C18_Adopt", "C18_Source">>
